@@ -5,6 +5,8 @@ use std::num::NonZeroU64;
 use std::convert::TryInto;
 verus! {
 //@@ body-begin
+// the offsets and length fields of this unit are reasoned about for a 64-bit target
+global layout usize is size == 8;
 
 //@ item rust/automerge/src/storage/parse.rs | type ParseResult
 //@ item rust/automerge/src/storage/parse.rs | struct Input
@@ -43,6 +45,26 @@ impl<'a> TryFrom<&'a [u8]> for ChangeHash {
     fn try_from(b: &'a [u8]) -> (r: Result<Self, InvalidChangeHashSlice>)
         ensures b.len() == 32 <==> r is Ok, r matches Ok(h) ==> h.0@ == b@,
     { unimplemented!() }
+}
+
+/// `leb128::Error` of parse.rs (sub-module parse::leb128) and the writer of the `leb128` crate share this name here.
+/// The crate writer is ASSUMED: `out == old ++ leb(n)` (backed by Kani harness u03_leb128_writer_matches_parser for all
+/// u64); `signed` is listed so that a switch to the signed writer is a failed obligation rather than an unknown function.
+pub mod leb128 {
+    pub use super::Error;
+    pub mod write {
+        use vstd::prelude::*;
+        verus!{
+        #[verifier::external_body]
+        pub fn unsigned(out: &mut Vec<u8>, n: u64) -> (r: Result<usize, ()>) ensures final(out)@ == old(out)@ + super::super::leb(n as nat), r is Ok { unimplemented!() }
+        #[verifier::external_body]
+        pub fn signed(out: &mut Vec<u8>, n: i64) -> (r: Result<usize, ()>) ensures final(out)@ == old(out)@ + super::super::sleb(n as int), r is Ok { unimplemented!() }
+        }
+    }
+}
+/// canonical signed LEB128 (only used to give the signed writer a meaning different from the unsigned one)
+pub open spec fn sleb(i: int) -> Seq<u8> decreases (if i >= 0 { i } else { -i - 1 }) {
+    if -64 <= i < 64 { seq![(i % 128) as u8] } else { seq![((i % 128) + 128) as u8] + sleb(i / 128 - (if i % 128 < 0 { 1int } else { 0int })) }
 }
 
 // ---------------------------------------------------------------- spec vocabulary
@@ -609,6 +631,25 @@ pub proof fn lemma_decode_of_encode(v: nat, rest: Seq<u8>)
         r matches Ok((i, v)) ==> ({ let k = i.position - input.position; 1 <= k <= 10 && input.advanced(i, k) && i.wf()
             && accepts_u64(input.bytes@, k) && v.get() as nat == valk(input.bytes@, k as nat) }),
         (input.bytes.len() < 10 && all_cont(input.bytes@, input.bytes.len() as int)) ==> (r matches Err(ParseError::Incomplete(_))),
+//@ end
+
+//@ fn rust/automerge/src/storage/parse.rs | length_prefixed_bytes
+//@   ret r
+//@   spec
+    requires input.wf(),
+    ensures
+        // C17: whatever the length prefix says, the result is a SUB-SLICE of the input (no allocation, no read
+        // beyond the input) ...
+        r matches Ok((i, b)) ==> ({ let k = lebk(input.bytes@); let n = dec_val(input.bytes@);
+            dec_ok(input.bytes@) && k + n <= input.bytes.len() && b@ =~= input.bytes@.subrange(k, k + n) && input.advanced(i, k + n) && i.wf() }),
+        // ... and a well-formed prefix whose payload is present is accepted (C19: decode of an encoded value)
+        (dec_ok(input.bytes@) && lebk(input.bytes@) + dec_val(input.bytes@) <= input.bytes.len()) ==> r is Ok,
+//@   before /^    take_n\(len as usize, i\)$/
+    proof {
+        let k = lebk(input.bytes@);
+        assert(i.bytes@ =~= input.bytes@.subrange(k, input.bytes.len() as int));
+        assert(forall|m: int| 0 <= m <= i.bytes.len() ==> #[trigger] i.bytes@.subrange(0, m) =~= input.bytes@.subrange(k, k + m));
+    }
 //@ end
 
 //@ fn rust/automerge/src/storage/parse.rs | change_hash
